@@ -6,7 +6,7 @@
    [Stuck] = the model's loop fuel ran out.  [bytes s] = every element is in 0..255; [valid_utf8] is Lib.Utf8's
    utf8.ValidString; [maxint] = 2^63-1, [two63] = 2^63; [zlen s <= maxint]: Go strings are shorter than 2^63 bytes. *)
 From Coq Require Import List ZArith Bool.
-From V Require Import Lib.Utf8 Model.Strs Proofs.StrsBasic Proofs.StrsMask Proofs.StrsRunes Proofs.StrsCase.
+From V Require Import Lib.Utf8 Model.Strs Run.C17 Proofs.StrsBasic Proofs.StrsMask Proofs.StrsRunes Proofs.StrsCase Proofs.StrsRun.
 Import ListNotations.
 Local Open Scope Z_scope.
 
@@ -111,3 +111,13 @@ Print Assumptions c17_uc_first_spec.
 Theorem c17_lc_first_spec : forall s, lc_first s = match s with b :: t => (if upper b then b + 32 else b) :: t | [] => [] end.
 Proof. exact lc_first_spec. Qed.
 Print Assumptions c17_lc_first_spec.
+
+(* the theorems above assembled over the case decoder of Run/C17.v: on every well-formed case for which the property
+   defines the output ([expected] = Some e: non-negative arguments, valid UTF-8 where needed, identifiers for the round
+   trip) the model's output is e, i.e. the judge applied by the differential run accepts the model *)
+Theorem c17_run_model_expected : forall op r e, case_wf op r -> expected op r = Some e -> run_model op r = e.
+Proof. exact run_model_expected. Qed.
+Print Assumptions c17_run_model_expected.
+Theorem c17_judge_accepts_model : forall op r e, case_wf op r -> expected op r = Some e -> spec_ok op r (run_model op r) = true.
+Proof. exact spec_ok_model. Qed.
+Print Assumptions c17_judge_accepts_model.
